@@ -24,6 +24,7 @@ Clauses (Fail.clause)
     docstring        runtime docstring not kept, or stub docstring not used when the runtime one is missing
     stub-only        stub-only member missing or not marked runtime=False; unexpected extra member
     no-alias-resolved an alias is resolved after loading without resolve_aliases
+    request-independent the merged modules after load("p.m") / load("p.m.f") / load("p.sub.deep") differ from those after load("p")
     order-independent the merged module differs between the two discovery orders, or between
                      griffe.merge_stubs(runtime, stubs) and griffe.merge_stubs(stubs, runtime)
 """
@@ -58,6 +59,8 @@ ASSUMPTIONS = [
     "runtime modules define each name once, have no overloads of their own; annotations are bare names (expression rendering is C03's subject)",
     "loading is static (allow_inspection=False) and without resolve_aliases; discovery order is injected by wrapping os.walk / Path.iterdir "
     "(sorted lists m.py before m.pyi, reversed the other way round) and, for -stubs packages, by swapping the two search paths",
+    "wildcard-provided members come from p/_impl.py (no __all__, public names, functions/attributes/flat classes) and are disjoint from the "
+    "module's own names; the alias created by the expansion is expected resolved (that is the expansion's doing, not the merger's)",
     "internal aliases point to functions of p/other.py (loaded as part of the package); external aliases to a package that is not on the search path",
 ]
 BUDGET_S = {"quick": 70.0, "thorough": 1100.0}
